@@ -200,7 +200,7 @@ def splice_fn(out: Out, it: Item, file: str, fid: str, *, ret: str = 'res',
     rec.origin = dict(origin or {})
     rec.inherited = list(inherits)
     rec.no_body = it.open is None or drop_body
-    rec.probe = bool(probe) and not rec.no_body
+    rec.probe = (probe is True or (isinstance(probe, (set, frozenset)) and fid in probe)) and not rec.no_body
     ensures = list(ensures)
     if rec.probe:
         ensures = ensures + [('probe', 'false')]
@@ -288,7 +288,9 @@ def splice_fn(out: Out, it: Item, file: str, fid: str, *, ret: str = 'res',
         if want is not None and want >= len(occ):
             raise AnchorLost(f'{fid}: text anchor {pat!r} occurrence {want} missing')
         pos = body_a + occ[want or 0]
-        if d.get('where', 'before') == 'after':
+        if 'offset' in d:
+            pos += d['offset']
+        elif d.get('where', 'before') == 'after':
             pos += len(pat)
         # token at/after pos
         ti = next(k for k in range(it.open, it.last + 1) if toks[k].start >= pos)
